@@ -27,9 +27,11 @@ for kind in ("ext", "map", "md"):
     src = f"harness/C19_{kind}.cpp"
     for name, ctype in IDX:
         primary = name == "int32"
-        # full pattern list: quick for int32, thorough for every index type
-        for n, (lo, hi) in enumerate(slices(kind)):
-            units.append(Unit(f"C19_{kind}_{name}_p{n}", src, defs=defs(name, ctype, lo, hi),
+        # full pattern list: quick for int32, thorough for every index type (md, the most expensive to compile: full list for
+        # int32 and uint64, every 2nd pattern for the other six index types)
+        full = primary or name == "uint64" or kind != "md"
+        for n, (lo, hi) in enumerate(slices(kind) if full else [(0, 53), (53, NG)]):
+            units.append(Unit(f"C19_{kind}_{name}_p{n}", src, defs=defs(name, ctype, lo, hi, 1 if full else 2),
                               flavours={"quick": [O0] if primary else [], "thorough": [O0]},
                               shards={"quick": 2, "thorough": 2}))
         if not primary:
